@@ -103,7 +103,7 @@ func c15Reference(c *catalog, withTarget bool, down map[string]string) map[strin
 			}
 		}
 	}
-	fill := func(kind string, groups map[string]*grp) {
+	fill := func(kind string, groups map[string]*grp, liveIsLive bool) {
 		for k, g := range groups {
 			if !g.hasDropped {
 				continue
@@ -112,12 +112,17 @@ func c15Reference(c *catalog, withTarget bool, down map[string]string) map[strin
 			if g.hasLive && g.liveCreate > g.droppedFloor {
 				out[kind].below[k] = g.liveCreate
 				out[kind].floor[k] = g.droppedFloor
+			} else if g.hasLive && liveIsLive {
+				// a live collection that took the name over by a rename (it keeps its own, older creation time): it is the
+				// holder of the name now and "operations on live objects are never skipped because of the snapshot", so the
+				// horizon has to stay below its creation time (nothing of the dropped namesake can be skipped then)
+				out[kind].below[k] = g.liveCreate
 			} else {
 				out[kind].exact[k] = tt - 1
 			}
 		}
 	}
-	fill(util.DroppedCollectionKey, cg)
+	fill(util.DroppedCollectionKey, cg, true)
 	pg := map[string]*grp{}
 	for _, p := range c.Parts {
 		if p.State == "tombstone" {
@@ -143,7 +148,8 @@ func c15Reference(c *catalog, withTarget bool, down map[string]string) map[strin
 			}
 		}
 	}
-	fill(util.DroppedPartitionKey, pg)
+	// (a partition record in state created may belong to a dropped incarnation of its collection: not a live object)
+	fill(util.DroppedPartitionKey, pg, false)
 	return out
 }
 
@@ -208,6 +214,15 @@ func c15Ops(thorough bool) []catOp {
 			for _, k := range []string{"createColl", "beginCreateColl", "finishCreateColl", "abortCreateColl", "dropColl", "droppedColl", "gcColl", "createPart", "dropPart", "gcPart"} {
 				ops = append(ops, catOp{Kind: k, DB: db, Name: n})
 			}
+		}
+		// a second name that exists to be renamed: a live collection takes over the name of a dropped one and keeps its own
+		// (older) creation time
+		if !thorough {
+			ops = append(ops, catOp{Kind: "createColl", DB: db, Name: "b"})
+		}
+		ops = append(ops, catOp{Kind: "renameColl", DB: db, Name: "b"})
+		if thorough {
+			ops = append(ops, catOp{Kind: "renameColl", DB: db, Name: "a"})
 		}
 	}
 	return ops
